@@ -148,11 +148,16 @@ Definition roots (g : gram) : list string := fst g.
 Definition kids (g : gram) (ko : string) : list string :=
   match assoc ko (snd g) with Some l => l | None => [] end.
 (* classes that can stand in the same position as cls *)
+(* the scalar classes a leaf of this input type can carry (pseudo-row "#kinds" of the grammar) *)
+Definition KINDS : string := "#kinds".
+Definition gkinds (g : gram) : list string := kids g KINDS.
+Definition class_rows (g : gram) : list (string * list string) :=
+  filter (fun pk : string * list string => negb (String.eqb (fst pk) KINDS)) (snd g).
 Definition alt (g : gram) (cls : string) : list string :=
-  dedup_s (flat_map (fun pk : string * list string => if mem cls (snd pk) then snd pk else []) (snd g)
+  dedup_s (flat_map (fun pk : string * list string => if mem cls (snd pk) then snd pk else []) (class_rows g)
            ++ (if mem cls (roots g) then roots g else [])).
 Definition classes (g : gram) : list string :=
-  roots g ++ flat_map (fun pk : string * list string => fst pk :: snd pk) (snd g).
+  roots g ++ flat_map (fun pk : string * list string => fst pk :: snd pk) (class_rows g).
 Definition root_class (of : string) : string :=
   match assoc of (t_default T) with Some r => r | None => "" end.
 
@@ -160,7 +165,7 @@ Inductive succ :=
   | SCfg (c : cfg)      (* printing continues there *)
   | SNoPrinter          (* no print method is resolved *)
   | SNoCopy             (* the resolved method wraps the item's live children in a new container *)
-  | SEmit               (* the resolved leaf method does not return normally on null (the class of D19) *)
+  | SEmit               (* the resolved leaf method does not return normally on a scalar class of an open finding *)
   | SEmitOther          (* ... on some other scalar class *)
   | SBad.               (* the model itself is stuck: unknown method, missing parent / sub-formatter, fuel *)
 
@@ -212,10 +217,14 @@ Fixpoint run_method (fuel : nat) (f : finst) (owner name cls ko : string) : list
       end
   end.
 
-Definition emit_kinds (owner name cls : string) : list (string * bool) :=
+Definition emit_all (owner name cls : string) : list (string * bool) :=
   match assoc3 (owner, name, cls) (t_emit T) with Some l => l | None => [] end.
-(* the scalar classes inside the class of the open finding D19 *)
-Definition kf_kind (k : string) : bool := String.eqb k "null".
+(* restricted to the scalar classes this input type can carry *)
+Definition emit_kinds (owner name cls : string) : list (string * bool) :=
+  filter (fun kb : string * bool => mem (fst kb) (gkinds it)) (emit_all owner name cls).
+(* the scalar classes inside the classes of the open findings: null (D19, plistlib has no null) and
+   bytes (YAMLStringFormatter.print_StringNode tests `'\n' in s` on a bytes object) *)
+Definition kf_kind (k : string) : bool := String.eqb k "null" || String.eqb k "bytes".
 Definition emit_ok (owner name cls : string) : bool := forallb (fun kb : string * bool => snd kb) (emit_kinds owner name cls).
 Definition emit_kf_ok (owner name cls : string) : bool :=
   forallb (fun kb : string * bool => snd kb || negb (kf_kind (fst kb))) (emit_kinds owner name cls).
@@ -288,7 +297,7 @@ Definition cfg_clean (c : cfg) : bool :=
 (* ---- the known-finding classes, DEFINED BY THE MODEL on a configuration of the product ---- *)
 (* D9: some reachable (formatter instance, class) resolves to a method that wraps live children *)
 Definition kf_reparent_cfg (of : string) (m : omode) : bool := existsb (cfg_has SNoCopy) (reach of m).
-(* D19: some reachable leaf class is handed to an emitter that is undefined on null (plistlib has no null) *)
+(* D19 / bytes under YAML: some reachable leaf class is handed to an emitter that is undefined on null / bytes *)
 Definition kf_emit_cfg (of : string) (m : omode) : bool := existsb (cfg_has SEmit) (reach of m).
 (* neither: dispatch is not total, or the model is stuck *)
 Definition other_err_cfg (of : string) (m : omode) : bool :=
@@ -412,7 +421,7 @@ Definition event_fail (it : gram) (e : event) : efail :=
   | Some (f, m, ow) =>
       let cls := unedited (e_mro e) in
       let calls := run_method it MFUEL f ow m cls cls in
-      let ks := emit_kinds ow m cls in
+      let ks := emit_all ow m cls in
       match ks, assoc (e_kind e) ks with
       | _, Some false => if kf_kind (e_kind e) then FEmit else FEmitOther
       | _ :: _, None => FBad      (* a scalar class the generator did not probe *)
@@ -431,29 +440,48 @@ Definition event_in_reach (c : c13_case) (S : list cfg) (e : event) : bool :=
   e_is_edit e ||
   existsb (fun x => slist_eqb (c_f x) (e_base e) && String.eqb (c_cls x) (unedited (e_mro e))) S.
 
-Definition completed (c : c13_case) : bool := match c_out c with Completed _ => true | Raised _ _ => false end.
+Definition completed (c : c13_case) : bool := match c_out c with Completed _ => true | Raised _ _ _ => false end.
 
 Definition grammar_ok (c : c13_case) : bool :=
   forallb (fun r => mem r (roots (grammar (c_it c)))) (c_roots c) &&
-  forallb (fun pk : string * string => mem (snd pk) (kids (grammar (c_it c)) (fst pk))) (c_pairs c).
+  forallb (fun pk : string * string => mem (snd pk) (kids (grammar (c_it c)) (fst pk))) (c_pairs c) &&
+  forallb (fun k => mem k (gkinds (grammar (c_it c)))) (c_kinds c).
 
 (* S : the reachable set of the case's configuration (reach of its grammar, root formatter and mode) *)
 Definition corr_C13 (S : list cfg) (c : c13_case) : bool :=
   grammar_ok c &&
   forallb event_resolves (c_events c) &&
   forallb (event_in_reach c S) (c_events c) &&
-  Bool.eqb (completed c) (forallb (fun e => efail_none (event_fail (grammar (c_it c)) e)) (c_events c)) &&
+  (* rendering completes iff no dispatch is predicted to fail; an exception raised outside rendering (loader, diff
+     engine) is outside this model: nothing printed so far may have been predicted to fail *)
+  (let all_ok := forallb (fun e => efail_none (event_fail (grammar (c_it c)) e)) (c_events c) in
+   match c_out c with
+   | Completed _ => all_ok
+   | Raised _ _ true => negb all_ok
+   | Raised _ _ false => all_ok
+   end) &&
   (* -e prints str(edit) only: no dispatch at all *)
   (match c_mode c with MEdits => match c_events c with [] => true | _ => false end | _ => true end).
 
 (* ---- the known-finding classes on an observed run ---- *)
 Definition raised_with (c : c13_case) (cls sub : string) : bool :=
-  match c_out c with Raised k msg => String.eqb k cls && contains sub msg | _ => false end.
+  match c_out c with Raised k msg _ => String.eqb k cls && contains sub msg | _ => false end.
 Definition kf_reparent (c : c13_case) : bool :=
   raised_with c "ValueError" "Parent is already assigned" &&
   existsb (fun e => match event_fail (grammar (c_it c)) e with FReparent => true | _ => false end) (c_events c).
+Definition emit_fails_on (c : c13_case) (kind : string) : bool :=
+  existsb (fun e => match event_fail (grammar (c_it c)) e with FEmit => String.eqb (e_kind e) kind | _ => false end)
+          (c_events c).
 Definition kf_plist_null (c : c13_case) : bool :=
-  raised_with c "TypeError" "unsupported type" &&
-  existsb (fun e => match event_fail (grammar (c_it c)) e with FEmit => true | _ => false end) (c_events c).
+  raised_with c "TypeError" "unsupported type" && emit_fails_on c "null".
+(* a bytes string (pickle protocol >= 3) printed by YAMLStringFormatter.print_StringNode *)
+Definition kf_yaml_bytes (c : c13_case) : bool :=
+  raised_with c "TypeError" "bytes-like object is required" && emit_fails_on c "bytes".
+(* two different bytes strings compared by the diff engine (outside rendering): StringNode.edits takes len() of an int *)
+Definition kf_bytes_diff (c : c13_case) : bool :=
+  match c_out c with
+  | Raised k msg false => String.eqb k "TypeError" && contains "has no len()" msg && mem "bytes" (c_kinds c) && c_differ c
+  | _ => false
+  end.
 
 End Model.
